@@ -235,7 +235,7 @@ def main():
     ap.add_argument('--only', default=None, help='comma list of harness names')
     a = ap.parse_args()
     seed = int(os.environ.get('VERIF_SEED', '0') or 0)
-    world = prep.world(with_bin=(a.prop == 'C09'))
+    world = prep.world(with_bin=(a.prop in ('C09', 'C19')))
     sys.path.insert(0, os.path.join(HERE, 'props'))
     mod = __import__(a.prop.lower())
     try:
